@@ -35,12 +35,13 @@ TrErr == IsEvent("UpErr") /\ Err(R.sess)
 TrAbort == IsEvent("UpSessionAbort") /\ Abort(R.sess)
 TrCacheIndex == IsEvent("UpCacheIndex") /\ CacheIndex(R.sess, R.xs)
 TrStoreCheck == IsEvent("UpStoreCheck") /\ StoreCheck(R.x, R.recomputed, R.seek_ok, R.stream_ok, R.decodes, R.chunks)
+TrGlobalQuery == IsEvent("UpGlobalQuery") /\ GlobalQuery(R.sess, R.chunk, R.res)
 TrDownload == IsEvent("UpDownload") /\ Download(R.f, R.a, R.b, R.out, R.exp, R.n, R.ok)
 \* a panic inside the code under test is an event no action matches
 
 TraceNext == \/ TrReset \/ TrSessionStart \/ TrFileStart \/ TrDecision \/ TrCut \/ TrCompletion \/ TrPutStart
              \/ TrPutEnd \/ TrShardStart \/ TrShardEnd \/ TrFinish \/ TrFinalize \/ TrErr \/ TrAbort
-             \/ TrCacheIndex \/ TrStoreCheck \/ TrDownload
+             \/ TrCacheIndex \/ TrStoreCheck \/ TrDownload \/ TrGlobalQuery
 TraceSpec == TraceInit /\ [][TraceNext]_tvars
 
 TraceAccepted ==
